@@ -3,17 +3,23 @@ import itertools
 
 ID = "C10"
 HARNESS_PKG = "h_c10"
-COQ_IMPORTS = "From PV Require Import Model.Tx Oracle.C10."
+COQ_IMPORTS = "From PV Require Import Model.Tx Model.TxSlot Oracle.C10 Oracle.C10Slot."
 COQ_SHARD = 60
 TECHNIQUE = ("Coq proof over a labelled transition system of the transaction-permit protocol (invariant by induction over arbitrary "
              "traces of program steps, cancellations and detached-rollback-task steps) + schedule-driven differential correspondence "
-             "of the Gallina model with the real SqliteStore")
+             "of the Gallina model with the real SqliteStore; slot-mutex refinement (one transaction + helper statements in flight + "
+             "rollback task + following transaction) proved for all traces and replayed through a schedule point inside SqliteStore::tx")
 LEVEL_TEXT = ("PARTIAL. Proved in Coq for every program assignment and every trace (any interleaving, a cancel point before every "
               "instruction incl. inside begin/commit/rollback, the detached rollback task of TransactionPermit::drop as its own thread; "
               "no bound): C10_mutual_exclusion (one permit owner), C10_serializable + C10_committed_exactly (db = committed transactions "
               "applied in commit order), C10_aborted_leave_no_trace + C10_quiescent_free, C10_outcome_faithful (the assert/panics/"
               "TransactionMissing of the API are unreachable), C10_no_permanent_block + C10_step_decreases (the owner always has an "
-              "enabled non-cancel step and every step decreases a measure). The theorems are about the permit protocol "
+              "enabled non-cancel step and every step decreases a measure). Slot-mutex refinement (Model/TxSlot.v: a statement of the "
+              "running transaction issued by a helper sharing the store clone = lock slot; execute; unlock, so the permit can be dropped "
+              "while the slot mutex is held; the real drop handler awaits the mutex inside the detached task), every configuration and trace: "
+              "C10_aborted_tx_is_rolled_back_before_permit_release, C10_next_begin_finds_empty_slot, C10_slot_no_panic, "
+              "C10_slot_rows_only_from_committed, C10_slot_progress, C10_slot_step_decreases; C10_slot_variant_try_lock_refuted is a regression lemma about the "
+              "try_lock variant of the drop handler (not a finding). The theorems are about the permit protocol "
               "(semaphore, tx slot, drop handler, tx! macro); SQLite's own atomicity/isolation, tokio Semaphore/Mutex (FIFO hand-off) "
               "and sqlx 'dropped Transaction = rollback' are ASSUMED by the model. The model is tied to p2panda-store/src/sqlite.rs and "
               "macros.rs on every run: hand-polled task futures on a real SqliteStore (in-memory and temp-file), the schedule of the "
@@ -21,7 +27,9 @@ LEVEL_TEXT = ("PARTIAL. Proved in Coq for every program assignment and every tra
               "and the proved-sound observation oracle evaluated on the implementation's output.")
 LEVEL_NOTE = ("Trusted: Coq kernel + vm_compute; hand-written model; harness/python glue; schedule-point hooks (add-only, cfg-gated). "
               "Assumed, exercised only by the correspondence runs: SQLite atomicity/isolation, sqlx commit/rollback/drop semantics, tokio "
-              "Semaphore FIFO hand-off and Mutex, tokio::spawn running the detached task. Not modelled: failing pool.begin()/commit()/"
+              "Semaphore FIFO hand-off and Mutex, tokio::spawn running the detached task. The slot refinement covers one transaction with one helper and one follower (T acquires first), not N concurrent helpers; a helper "
+              "statement STARTED after the transaction's permit was released is API misuse (documented by SqliteStore) and out of scope. "
+              "Not modelled: failing pool.begin()/commit()/"
               "rollback() (sqlx errors), API misuse (store.tx without a permit, several transactions per permit), runtime shutdown.")
 ASSUMPTIONS = ["SQLite executes a committed sqlx transaction atomically and isolates uncommitted writes (assumed; observed through mid-run reads in file mode)",
                "sqlx: a Transaction dropped without commit is rolled back; commit/rollback calls succeed",
@@ -29,10 +37,15 @@ ASSUMPTIONS = ["SQLite executes a committed sqlx transaction atomically and isol
                "one transaction per task, keys distinct across tasks (needed only for aborted_leave_no_trace)"]
 TRUSTED = ["modelled not verified: SQLite, sqlx, tokio primitives (see assumptions); cancellation inside a single SQL statement is covered only as before/after"]
 RULE = ("quick: all schedules of 2 tasks over a fixed small program set up to length 7 that follow a mini-simulator's enabled labels "
-        "(sampled), plus ~260 random scenarios (2-4 tasks, 0-3 writes, commit/rollback/drop/error, cancel points anywhere incl. while "
+        "(sampled), plus ~205 random scenarios (2-4 tasks, 0-3 writes, commit/rollback/drop/error, cancel points anywhere incl. while "
         "waiting/granted/inside commit, rollback-task steps interleaved, disabled labels mixed in), in-memory and temp-file stores; "
+        "slot scenarios (78 quick / 708 thorough): transaction T (commit/rollback/drop/error, future dropped anywhere) with a helper future "
+        "that issues T's statements through the real associate()/store.tx and is parked INSIDE the slot-mutex critical section "
+        "(schedule point tx_locked) while T's permit is dropped / T commits / rolls back, then helper finishes, rollback task runs, "
+        "a following transaction begins + commits, probe; "
         "thorough: ~2600 random scenarios up to 6 tasks. non-trivial = some task had to wait, some transaction committed and some "
-        "was aborted (cancel/drop/error/rollback)")
+        "was aborted (cancel/drop/error/rollback); slot scenario: a helper statement was parked in the critical section and a "
+        "transaction committed afterwards (distribution reports how many dropped the permit with the statement in flight)")
 NONTRIVIAL_FLOOR = 20
 HARNESS_TIMEOUT = 1500
 
@@ -120,6 +133,173 @@ class Sim:
                 self.release()
 
 
+class SlotSim:
+    """Mini-simulator of Model/TxSlot.v (generation/shrinking only): task 0 = T with a helper, task 1 = N."""
+
+    def __init__(self, progs, helper):
+        self.progs, self.hw = progs, helper
+        self.pc = ["init", "init"]
+        self.k = [0, 0]
+        self.rb = 0
+        self.avail = True
+        self.mtx = False
+        self.hk = 0
+        self.locked = False
+
+    def t_live(self):
+        return self.pc[0] in ("granted", "hold", "commit", "rollback") or self.rb in (1, 2)
+
+    def release(self):
+        if self.pc[1] == "wait":
+            self.pc[1] = "granted"
+        else:
+            self.avail = True
+
+    def needs_mutex(self, i):
+        p = self.pc[i]
+        if p == "granted":
+            return True
+        if p == "hold":
+            fin, ws = self.progs[i]
+            return self.k[i] < len(ws) or fin in "cre"
+        return False
+
+    def enabled(self):
+        out = []
+        p = self.pc[0]
+        if p == "init":
+            if self.avail:
+                out.append("S0")
+        elif p != "done" and not (self.mtx and self.needs_mutex(0)):
+            out.append("S0")
+        if p != "done":
+            out.append("C0")
+        p = self.pc[1]
+        if p == "init" or (p in ("granted", "hold", "commit") and not (self.mtx and self.needs_mutex(1))):
+            out.append("S1")
+        if (self.rb == 1 and not self.mtx) or self.rb == 2:
+            out.append("R0")
+        if self.locked or (self.hk < len(self.hw) and not self.mtx and self.t_live()):
+            out.append("H0")
+        return out
+
+    def drop_in_flight(self, lab):
+        """does `lab` drop T's permit while the helper's statement is in flight?"""
+        if not self.locked or self.pc[0] not in ("hold", "commit", "rollback"):
+            return False
+        if lab == "C0":
+            return True
+        fin, ws = self.progs[0]
+        return lab == "S0" and self.pc[0] == "hold" and self.k[0] >= len(ws) and fin == "d"
+
+    def apply(self, lab):
+        if lab == "Q":
+            return
+        if lab == "H0":
+            if self.locked:
+                self.locked, self.mtx = False, False
+                self.hk += 1
+            else:
+                self.locked, self.mtx = True, True
+            return
+        if lab == "R0":
+            if self.rb == 1:
+                self.rb = 2
+            elif self.rb == 2:
+                self.rb = 3
+                self.release()
+            return
+        kind, i = lab[0], int(lab[1:])
+        p = self.pc[i]
+        if kind == "C":
+            self.pc[i] = "done"
+            if p == "granted":
+                self.release()
+            elif p in ("hold", "commit", "rollback"):
+                self.rb = 1
+            return
+        if p == "init":
+            if self.avail:
+                self.avail = False
+                self.pc[i] = "granted"
+            else:
+                self.pc[i] = "wait"
+        elif p == "granted":
+            self.pc[i] = "hold"
+        elif p == "hold":
+            fin, ws = self.progs[i]
+            if self.k[i] < len(ws):
+                self.k[i] += 1
+            elif fin == "c":
+                self.pc[i] = "commit"
+            elif fin == "r":
+                self.pc[i] = "rollback"
+            else:
+                self.pc[i] = "done"
+                self.rb = 1
+        elif p in ("commit", "rollback"):
+            self.pc[i] = "done"
+            self.release()
+
+
+def slot_valid(case):
+    """every label of a slot scenario is enabled in the mini-simulator (T begins first, no step that would queue on the
+    slot mutex, no helper statement started outside T's permit)"""
+    sim = SlotSim(case["progs"], case["helper"])
+    for lab in case["labels"]:
+        if lab == "Q":
+            continue
+        if lab not in sim.enabled():
+            return False
+        sim.apply(lab)
+    return True
+
+
+def slot_case(rng, mode, maxw, maxh):
+    """T (any ending, cancellable anywhere) + helper statements parked inside the slot-mutex critical section + the
+    following transaction N; biased towards dropping T's permit while a helper statement is in flight."""
+    key = 1
+    ws = list(range(key, key + rng.randint(0, maxw)))
+    key += len(ws)
+    hw = list(range(key + 10, key + 10 + rng.randint(1, maxh)))
+    nws = list(range(key + 20, key + 20 + rng.randint(0, 2)))
+    progs = [[rng.choice("cdderc"), ws], ["c", nws]]
+    sim = SlotSim(progs, hw)
+    labs = ["S0"]
+    sim.apply("S0")
+    p_cancel = rng.choice([0.05, 0.2, 0.4])
+    n_start = rng.randint(1, 9)
+    for step in range(40):
+        en = sim.enabled()
+        if step < n_start and "S1" in en and sim.pc[1] == "init" and [l for l in en if l not in ("C0", "S1")]:
+            en.remove("S1")
+        if not [l for l in en if l != "C0"]:
+            break
+        if sim.locked:
+            # a helper statement is in flight: drop the permit now, or let somebody else move first
+            r = rng.random()
+            drops = [l for l in ("S0", "C0") if l in en and sim.drop_in_flight(l)]
+            if drops and r < 0.55:
+                lab = drops[0] if rng.random() < 0.7 else drops[-1]
+            elif "S0" in en and r < 0.8:
+                lab = "S0"
+            else:
+                lab = rng.choice([l for l in en if l != "C0"])
+        else:
+            cands = [l for l in en if l != "C0"]
+            if "H0" in cands and rng.random() < 0.5:
+                lab = "H0"
+            elif "C0" in en and sim.pc[0] != "init" and rng.random() < p_cancel * 0.3:
+                lab = "C0"
+            else:
+                lab = rng.choice(cands)
+        labs.append(lab)
+        sim.apply(lab)
+        if mode == "f" and rng.random() < 0.1:
+            labs.append("Q")
+    return {"mode": mode, "progs": progs, "helper": hw, "labels": labs}
+
+
 def rand_progs(rng, n, maxw):
     progs, key = [], 1
     for _ in range(n):
@@ -187,7 +367,17 @@ def gen(tier, rng):
         for labs in rng.sample(leaves, min(per_set, len(leaves))):
             yield {"mode": "m" if rng.random() < 0.6 else "f", "progs": progs, "labels": labs}
     # (ii) random structured scenarios
-    nrand, maxn, maxw, maxlen = (260, 4, 3, 40) if tier == "quick" else (2600, 6, 4, 90)
+    # (iii) slot scenarios: a helper statement of the running transaction in flight (slot mutex held) at the drop
+    fixed = [("d", [1], ["S0", "S0", "S0", "H0", "S0", "H0", "R0", "R0", "S1", "S1", "S1", "S1", "S1"]),
+             ("c", [1], ["S0", "S0", "S0", "H0", "C0", "S1", "H0", "R0", "R0", "S1", "S1", "S1", "S1"]),
+             ("e", [], ["S0", "S0", "H0", "C0", "H0", "S1", "R0", "R0", "S1", "S1", "S1", "S1"]),
+             ("r", [1], ["S0", "S0", "S0", "S1", "S0", "H0", "C0", "H0", "R0", "R0", "S1", "S1", "S1", "S1"])]
+    for fin, ws, labs in fixed:
+        for mode in "mf":
+            yield {"mode": mode, "progs": [[fin, ws], ["c", [2]]], "helper": [5, 6], "labels": labs}
+    for _ in range(70 if tier == "quick" else 700):
+        yield slot_case(rng, "m" if rng.random() < 0.55 else "f", 2, 3)
+    nrand, maxn, maxw, maxlen = (205, 4, 3, 40) if tier == "quick" else (2600, 6, 4, 90)
     for _ in range(nrand):
         n = rng.randint(2, maxn)
         progs = rand_progs(rng, n, maxw)
@@ -197,7 +387,9 @@ def gen(tier, rng):
 
 
 def harness_line(case):
-    ps = " ; ".join(" ".join([p[0]] + [str(k) for k in p[1]]) for p in case["progs"])
+    hs = [case.get("helper", [])] + [[] for _ in case["progs"][1:]]
+    ps = " ; ".join(" ".join([p[0]] + [str(k) for k in p[1]] + (["h"] + [str(k) for k in h] if h else []))
+                    for p, h in zip(case["progs"], hs))
     return "%s ; %s ; %s" % (case["mode"], ps, " ".join(case["labels"]))
 
 
@@ -219,12 +411,38 @@ def _labels(case):
     return "[" + ";".join(out) + "]"
 
 
+def _is_slot(case):
+    return "helper" in case
+
+
+def _xlabels(case):
+    out = []
+    for l in case["labels"]:
+        if l == "Q":
+            out.append("XQ")
+        elif l[0] == "H":
+            out.append("XH")
+        else:
+            out.append({"S": "XS", "C": "XC", "R": "XR"}[l[0]] + " " + l[1:])
+    return "[" + ";".join(out) + "]"
+
+
+def _slot_args(case):
+    t, n = case["progs"]
+    return "(%s, %s) %s %s %s" % (_nl(t[1]), FINS[t[0]], _nl(case["helper"]), _nl(n[1]), _xlabels(case))
+
+
 def coq_model(case):
+    if _is_slot(case):
+        return "slot_model_line " + _slot_args(case)
     return "model_line %s %s" % (_progs(case), _labels(case))
 
 
 TOK = {"G": "TG", "W": "TW", "w": "Tw", "B": "TB", "I": "TI", "t": "Tt", "K": "TK", "R": "TR", "D": "TD", "E": "TE",
        "-": "Tnone", "c": "Tc", "s": "Ts", "r": "Tr"}
+
+
+XTOK = {"L": "XoL", "hI": "XoI", "hM": "XoM", "l": "Xol"}
 
 
 def _parse(impl):
@@ -241,6 +459,18 @@ def coq_oracle(case, impl):
     if pr is None:
         return "false"
     toks, rows, probe = pr
+    if _is_slot(case):
+        obs = []
+        for t in toks:
+            if t in XTOK:
+                obs.append(XTOK[t])
+            elif t in TOK:
+                obs.append("XO " + TOK[t])
+            elif t.startswith("q") and all(x.isdigit() for x in t[1:].split(",") if x) and "!" not in t:
+                obs.append("XO (Tq %s)" % _nl([int(x) for x in t[1:].split(",") if x]))
+            else:
+                obs.append("XO Tbad")
+        return "slot_check %s [%s] %s %s" % (_slot_args(case), ";".join(obs), _nl(rows), "true" if probe == "P" else "false")
     obs = []
     for t in toks:
         if t in TOK:
@@ -257,10 +487,33 @@ def nontrivial(case, impl):
     if pr is None:
         return False
     toks = pr[0]
+    if _is_slot(case):
+        # a helper statement was parked inside the slot-mutex critical section, and a transaction committed afterwards
+        return "L" in toks and "K" in toks[toks.index("L"):]
     return "W" in toks and "K" in toks and any(t in toks for t in ("c", "D", "E", "R"))
 
 
 def shrink(case):
+    if _is_slot(case):
+        labs = case["labels"]
+        for i in range(len(labs)):
+            c = dict(case, labels=labs[:i] + labs[i + 1:])
+            if slot_valid(c):
+                yield c
+        if len(case["helper"]) > 1:
+            c = dict(case, helper=case["helper"][:-1])
+            if slot_valid(c):
+                yield c
+        for i, p in enumerate(case["progs"]):
+            if p[1]:
+                q = [list(x) for x in case["progs"]]
+                q[i] = [p[0], p[1][:-1]]
+                c = dict(case, progs=q)
+                if slot_valid(c):
+                    yield c
+        if case["mode"] == "f" and "Q" not in labs:
+            yield dict(case, mode="m")
+        return
     labs = case["labels"]
     for i in range(len(labs)):
         yield {"mode": case["mode"], "progs": case["progs"], "labels": labs[:i] + labs[i + 1:]}
@@ -278,7 +531,17 @@ def shrink(case):
 
 def distribution(cases, impl):
     hist, modes, ns = {}, {}, {}
+    slot, in_flight = 0, 0
     for i, c in enumerate(cases):
+        if _is_slot(c):
+            slot += 1
+            sim = SlotSim(c["progs"], c["helper"])
+            hit = False
+            for lab in c["labels"]:
+                if lab != "Q" and lab in sim.enabled():
+                    hit = hit or sim.drop_in_flight(lab)
+                    sim.apply(lab)
+            in_flight += 1 if hit else 0
         modes[c["mode"]] = modes.get(c["mode"], 0) + 1
         ns[len(c["progs"])] = ns.get(len(c["progs"]), 0) + 1
         pr = _parse(impl.get(i, "") or "")
@@ -288,6 +551,7 @@ def distribution(cases, impl):
                 hist[k] = hist.get(k, 0) + 1
     lens = [len(c["labels"]) for c in cases]
     return {"modes": modes, "tasks": {str(k): v for k, v in sorted(ns.items())}, "tokens": dict(sorted(hist.items())),
+            "slot_scenarios": slot, "permit_dropped_with_helper_statement_in_flight": in_flight,
             "max_labels": max(lens), "mean_labels": round(sum(lens) / len(lens), 1)}
 
 
